@@ -1,5 +1,6 @@
 import Irismod.Props.Tie_HtlcId
 open Irismod.Props.Tie Irismod.Gen.PureHtlcId Irismod.GoSem
+#print axioms htlcid_effects_pinned
 #print axioms htlcid_guards_pinned
 #print axioms htlcid_all_translated
 #print axioms htlcid_translated_pinned
